@@ -31,9 +31,9 @@ type domain struct {
 	blocks []block
 	max    int
 	gaps   []int
-	real   []uint32     // point -> real number (usable points), index 1..max
-	isGap  []bool       // point -> gap?
-	probes [][]uint32   // point -> real numbers probed for Contains
+	real   []uint32   // point -> real number (usable points), index 1..max
+	isGap  []bool     // point -> gap?
+	probes [][]uint32 // point -> real numbers probed for Contains
 	point  map[uint32]int
 	ends   []int // usable points, ascending
 }
